@@ -37,7 +37,7 @@ import sys
 from concurrent.futures import ProcessPoolExecutor
 from pathlib import Path
 
-TOOL_VERSION = "racetable-5"
+TOOL_VERSION = "racetable-6"
 CLANG = os.environ.get("BFL_CLANG", "clang++-14")
 EIGEN_INC = "/usr/include/eigen3"
 
@@ -374,13 +374,20 @@ class Walker:
             self.visit_children(n)
             return
         if k == "LambdaExpr":
-            # the closure class repeats the body; visit capture initialisers and the body once
+            # the closure class repeats the body; visit capture initialisers and the body once.
+            # A lambda handed directly to a call (cv.wait(lk, pred), algorithms) is taken to run at its
+            # lexical position; a lambda that is stored (variable, std::function member, return value)
+            # may run anywhere later: its body is visited with no lock held.
+            saved = self.held
+            if not self.lambda_is_call_argument():
+                self.held = []
             self.stack.append(n)
             for c in inner(n):
                 if c["kind"] == "CXXRecordDecl":
                     continue
                 self.visit(c)
             self.stack.pop()
+            self.held = saved
             return
         if k == "VarDecl":
             self.visit_children(n)
@@ -412,6 +419,15 @@ class Walker:
             # `thread_member = std::thread(...)` is handled by the nested construct expression
             pass
         self.visit_children(n)
+
+    def lambda_is_call_argument(self):
+        for p in reversed(self.stack):
+            k = p["kind"]
+            if k in ("MaterializeTemporaryExpr", "CXXBindTemporaryExpr", "ImplicitCastExpr", "CXXConstructExpr",
+                     "CXXFunctionalCastExpr", "ExprWithCleanups", "ParenExpr", "CXXTemporaryObjectExpr"):
+                continue
+            return k in ("CXXMemberCallExpr", "CallExpr")
+        return False
 
     def strip(self, n):
         while n is not None and n["kind"] in ("ImplicitCastExpr", "ParenExpr", "MaterializeTemporaryExpr", "CXXBindTemporaryExpr", "ExprWithCleanups"):
@@ -561,11 +577,17 @@ class Walker:
                         return "w"
                     return "rw"
             return "rw"
+        if qt(m).startswith("const ") and not f[3].startswith("const "):
+            return "r"        # accessed through a const object (const member function): cannot be written
         while i < len(chain):
             p = chain[i]
             pk = p["kind"]
             if pk == "ParenExpr":
                 cur = p
+            elif pk == "ConditionalOperator":
+                if inner(p) and inner(p)[0] is cur:
+                    return "r"
+                cur = p           # `c ? x_ : y_` used as an lvalue: decided by the use of the result
             elif pk == "ImplicitCastExpr":
                 ck = p.get("castKind")
                 if ck == "LValueToRValue":
